@@ -356,7 +356,7 @@ pub fn run(tier: Tier) -> i32 {
     let mut run = Run::new("C20", tier, "exploration");
     let p = SeqLinesContract;
     run.replays("seq-lines", &p);
-    run.generated("seq-lines", &p, tier.pick(60_000, 3_000_000));
+    run.generated("seq-lines", &p, tier.pick(400_000, 3_000_000));
     run.exhaustive("seq-lines-exhaustive", "all step lists over {next, next_back} of length 0..=8 and over {next, next_back, nth(1), nth_back(1), nth(6)} of length 0..=5, x 0..=5 sequence lines x {LF, CRLF}", |ctx| {
         for n in 0..=5usize {
             let lines: Vec<B> = (0..n).map(|i| B(vec![b'A' + i as u8; i % 3])).collect();
@@ -394,7 +394,7 @@ pub fn run(tier: Tier) -> i32 {
     });
     let q = OtherIterators;
     run.replays("other-iterators", &q);
-    run.generated("other-iterators", &q, tier.pick(20_000, 1_000_000));
+    run.generated("other-iterators", &q, tier.pick(100_000, 1_000_000));
     let _ = json!(null);
     let _: Option<Failure> = None;
     run.finish(RULE, &["the Vec-with-two-indices model is the definition of a double-ended exact-size iterator"])
